@@ -3,6 +3,7 @@
   Go harness prints the implementation's result. Not part of any theorem's statement. Core-only.
 -/
 import Rosmar.Step
+import Rosmar.Registry
 namespace Rosmar.Driver
 open Rosmar
 
@@ -201,5 +202,32 @@ def fmtResp (l : Line) (resp : Resp) : String :=
     | "purge" => s!"{r} n={o.n}"
     | "update" | "wuwx" => s!"{r} cas={o.cas} calls={o.calls} seen=" ++ ",".intercalate o.seen
     | _ => r
+
+end Rosmar.Driver
+
+namespace Rosmar.Driver
+open Rosmar.Registry
+
+def regNames : List String := ["A", "B"]
+def regUrls : List String := ["d0", "d1", "d2", "d3"]
+
+def toROp (l : Line) : Option ROp :=
+  match l.op with
+  | "open" =>
+    let mode := match l.nat "mode" with | 1 => Mode.createNew | 2 => Mode.reOpenExisting | _ => Mode.createOrOpen
+    some (.open_ l.p0 (l.str "url") (l.str "name") mode)
+  | "hclose" => some (.close l.p0)
+  | "cad" => some (.cad l.p0)
+  | "put" => some (.put l.p0 l.p1 (l.str "v"))
+  | "get" => some (.get l.p0 l.p1)
+  | _ => none
+
+def regLine (r : Reg) (l : Line) : Reg × String :=
+  match toROp l with
+  | none => (r, "r=model-unknown-op")
+  | some op =>
+    let (r', e, v) := rstep r op
+    let vs := match op with | .get _ _ => " v" ++ optS v | _ => ""
+    (r', "r=" ++ e.name ++ vs ++ " | " ++ snapshot r' regNames regUrls)
 
 end Rosmar.Driver
